@@ -3,5 +3,6 @@
 set -eu
 out=$1
 rm -rf "$out"; mkdir -p "$out"
-cd /verif/mc
-go run ./instrument -repo /repo -verif /verif -out "$out"
+V=${VERIF:-/verif}
+cd "$V/mc"
+go run ./instrument -repo /repo -verif "$V" -out "$out"
